@@ -57,7 +57,7 @@ Proof. unfold parse_comment. stac. Qed.
 #[export] Hint Resolve Sim_parse_comment : sdb.
 
 Lemma Sim_parse_annotations E n rho : Sim E n rho parse_annotations parse_annotations.
-Proof. unfold parse_annotations. stac. Qed.
+Proof. unfold parse_annotations, annotation_body. stac. Qed.
 #[export] Hint Resolve Sim_parse_annotations : sdb.
 
 Lemma Sim_parse_literal_basic E n rho : Sim E n rho parse_literal_basic parse_literal_basic.
